@@ -1358,6 +1358,46 @@ def _nas_cases(rnd, table, shapes, tier):
                     mand.append([rnd.randrange(256) for _ in range(n)])
                 cases.append({"id": idn, "kind": "msg", "name": name, "hdr": hdr, "mand": mand, "opt": [], "perm": []})
                 idn += 1
+    # contents that have a structure of their own - the shape of an EAP packet (code, identifier, two-octet length, data; RFC 3748) and of
+    # nested type-length-value units, with inner lengths shorter than, equal to and longer than the information element: for NAS every
+    # variable-length IE is a string of octets, none of which says anything about where the IE ends
+    for name in sorted(table):
+        t = table[name]
+        sh = byname.get(name)
+        so = (sh or {}).get("opt") or []
+        oshapes = so if len(so) == len(t["opt"]) else [None] * len(t["opt"])
+        sm = (sh or {}).get("mand") or []
+        mshapes = sm if len(sm) == len(t["mand"]) else [None] * len(t["mand"])
+
+        def inner(L, q):
+            code = 1 + q % 4
+            il = [4, max(4, L // 2), L - 1, L + 3, L][q % 5]
+            return ([code, 7 + q, il >> 8, il & 255] + [rnd.randrange(256) for _ in range(L)])[:L]
+
+        def mand_default():
+            return [[rnd.randrange(256) for _ in range(val_len(r2[1], r2[2], s2, 1))] for (r2, s2) in zip(t["mand"], mshapes)]
+        q = 0
+        for i, row in enumerate(t["opt"]):
+            if row[1] not in ("TLVE", "LVE", "TLV", "LV") or (name, row[0]) in isolated or (oshapes[i] and oshapes[i]["kind"] not in ("lv-buffer", "lve-buffer")):
+                continue
+            for L in (12, 40):
+                for _ in range(5):
+                    hdr = [0] if t["epd"] == 126 else [rnd.randrange(256), rnd.randrange(256)]
+                    cases.append({"id": idn, "kind": "msg", "name": name, "hdr": hdr, "mand": mand_default(),
+                                  "opt": [{"iei": row[0], "v": inner(L, q)}], "perm": [1]})
+                    idn += 1
+                    q += 1
+        for i, (row, s2) in enumerate(zip(t["mand"], mshapes)):
+            if row[1] not in ("LV", "LVE") or (s2 and s2["kind"] not in ("lv-buffer", "lve-buffer")):
+                continue
+            for L in (12, 40):
+                for _ in range(5):
+                    hdr = [0] if t["epd"] == 126 else [rnd.randrange(256), rnd.randrange(256)]
+                    mand = mand_default()
+                    mand[i] = inner(L, q)
+                    cases.append({"id": idn, "kind": "msg", "name": name, "hdr": hdr, "mand": mand, "opt": [], "perm": []})
+                    idn += 1
+                    q += 1
     known5gmm = {t["mt"] for t in table.values() if t["epd"] == 126}
     known5gsm = {t["mt"] for t in table.values() if t["epd"] == 46}
     for mt in range(256):
